@@ -16,6 +16,7 @@ const (
 	rC04Perm = "ORDABS.rewrite-preserves-literals"
 	rC04Ord  = "ORD.check-sees-evaluated-clause"
 	rC04Red  = "ASSERT.reducer-argument"
+	rC04Eval = "ORDABS.accepted-evaluates"
 )
 
 // ---- host-side clause language ----
@@ -149,6 +150,26 @@ func unsafeReason(head []hTerm, prems []hPrem, hasDo bool, doKeys []string) stri
 	for _, p := range prems {
 		switch p.kind {
 		case "atom":
+			if p.pred == ":match_pair" || p.pred == ":match_cons" {
+				// mode (+, -, -): the scrutinee needs a value, the two outputs must be variables that have none yet
+				if r := needBound(p.args[0], "the scrutinee of "+p.String()); r != "" {
+					return r
+				}
+				for _, a := range p.args[1:] {
+					if a.kind != "var" {
+						return "an output argument of " + p.String() + " is not a variable"
+					}
+					if a.name != "_" && isBound(a.name) {
+						return "the output variable " + a.name + " of " + p.String() + " already has a value: the built-in fails at run time"
+					}
+				}
+				for _, a := range p.args[1:] {
+					if a.name != "_" {
+						bind(a.name)
+					}
+				}
+				continue
+			}
 			if strings.HasPrefix(p.pred, ":") {
 				for _, a := range p.args {
 					if r := needBound(a, "the comparison "+p.String()); r != "" {
@@ -384,6 +405,7 @@ func checkC04(c *core.Ctx) {
 	c.Rule(rC04Perm, "on the same clauses RewriteClause returns a permutation of the premises: no literal is dropped, duplicated or changed, and a negated atom is placed after the literals that bind its variables whenever the clause has such literals", 1)
 	c.Rule(rC04Ord, "Analyzer.Analyze checks the clause it evaluates: the value passed to CheckRule is the rewritten clause and is the one appended to the rules", 1)
 	c.Rule(rC04Red, "reducers applied to a non-variable return an error instead of asserting the argument's type", 1)
+	c.Rule(rC04Eval, "every clause of the family that RewriteClause + CheckRule (read from source) accept is handed, exactly as rewritten, to (*engine).oneStepEvalClause, read from source and evaluated with the real premise helpers, expression evaluator, built-ins and union-find over two set-model stores: evaluation returns no error and derives only ground facts", 1)
 	c04Corpus(c)
 	c04AnalyzeOrder(c)
 	c04Reducer(c)
@@ -447,7 +469,17 @@ func c04Corpus(c *core.Ctx) {
 		c.Unres(rC04Safe, ck.Name, ck.Decl.Pos(), "anchor-unresolved: analysis.Analyzer / ast node types")
 		return
 	}
-	pool := premisePool()
+	pool := rjPool()
+	base := len(premisePool())
+	evalF := c.MustFunc(rC04Eval, "engine", "engine.oneStepEvalClause")
+	var rj *rjFix
+	if evalF != nil {
+		rj = newRJFix(c, rC04Eval)
+		if !rj.ok {
+			rj = nil
+		}
+	}
+	evalBad, evaluated := "", 0
 	type headSpec struct {
 		args []hTerm
 		do   [][]string // transform variants: nil entry = none
@@ -478,7 +510,10 @@ func c04Corpus(c *core.Ctx) {
 				continue
 			}
 			seqs = append(seqs, []int{i, j})
-			for l := range pool {
+			if i >= base || j >= base {
+				continue // three premises: C04's own pool only (the extension enters singly and in pairs)
+			}
+			for l := 0; l < base; l++ {
 				if l == i || l == j {
 					continue
 				}
@@ -528,10 +563,31 @@ func c04Corpus(c *core.Ctx) {
 				}
 				safeBad = fmt.Sprintf("clause %s is accepted and evaluated with premises in the order [%s], but %s", cl, strings.Join(rs, ", "), reason)
 			}
+			// accepted: hand the very clause analysis produced to the rule evaluator
+			if rj != nil && !cl.hasDo && evalBad == "" {
+				for si, st := range rjStores()[:2] {
+					rj.load(st, rjStore{})
+					got, err := rj.seminaive(evalF, rewritten)
+					if !runORD(c, rC04Eval, evalF.Name, evalF, err) {
+						rj = nil
+						break
+					}
+					evaluated++
+					if got.err {
+						evalBad = fmt.Sprintf("clause %s is accepted by analysis, but evaluating it over store %d fails with an error (a variable without a value where one is needed, or an argument of the wrong form)", cl, si)
+					} else if !got.ground {
+						evalBad = fmt.Sprintf("clause %s is accepted by analysis, but evaluating it over store %d derives the non-ground fact %s", cl, si, got.detail)
+					}
+				}
+			}
 		}
 	}
 	c.Cover("clauses_evaluated", n)
 	c.Cover("clauses_accepted", accepted)
 	c.Check(permBad == "", rC04Perm, rw.Name, rw.Decl.Pos(), fmt.Sprintf("a permutation of the premises on all %d clauses", n), permBad)
+	if evalF != nil && rj != nil {
+		c.Cover("accepted_clauses_evaluated", evaluated)
+		c.Check(evalBad == "" && evaluated > 100, rC04Eval, evalF.Name, evalF.Decl.Pos(), fmt.Sprintf("%d evaluations of accepted clauses: no error, only ground facts", evaluated), evalBad)
+	}
 	c.Check(safeBad == "" && accepted > 50, rC04Safe, ck.Name, ck.Decl.Pos(), fmt.Sprintf("%d of %d clauses accepted, all of them safe in their evaluation order", accepted, n), safeBad)
 }
